@@ -61,6 +61,15 @@ def gen_planar(rng, n, tier):
         out.append({'x1': [pt() for _ in range(n1)], 'x2': [pt() for _ in range(n2)], 'p': rng.choice([1, 2, INF]), 'dim': rng.choice([2, 2, 1, 3]), 'rematch': rng.choice([None, None, None, 'dtw', 'frechet']), 'ptype': rng.choice([None, None, 'float', 'np.int64', 'np.float64', 'np.int32']), 'later': rng.random() < 0.3, 'plot': rng.random() < 0.2})
         if rng.random() < 0.2:
             out[-1]['geo'] = True; out[-1]['dim'] = 2
+    for _ in range(2):
+        # two recordings of the same road, a few hundred fixes each: one waits at the start, the other at the end, so the best coupling runs far from the diagonal
+        # (more than 200 cells): the fast variant must still find it.  Oracle only.
+        w = rng.choice([208, 215, 230]); r = rng.choice([12, 40, 55])
+        road = [[float(i), 0.0, 0.0] for i in range(1, r + 1)]
+        x1 = [[0.0, 0.001 * (k % 7), 0.0] for k in range(w)] + road
+        x2 = road[:-1] + [[float(r), 0.001 * (k % 5), 0.0] for k in range(w + 1)]
+        x2 = [[0.0, 0.0, 0.0]] + x2
+        out.append({'x1': x1, 'x2': x2, 'p': rng.choice([1, 2, INF]), 'dim': 2, 'rematch': None, 'ptype': None, 'later': False, 'plot': False})
     for _ in range(max(6, n // 40)):
         # a short track with an outlier against the same route recorded with a stop of 55..80 fixes (creeping by millimetres), the fast variant called with its default
         # arguments (verbose left on): the best coupling pays the outlier once, early; lingering on the first column is cheap for many rows and dearer in the end.  Oracle only.
@@ -166,7 +175,26 @@ def oracle_tol(tol):
             if i > 0 and j > 0:
                 cands.append(best(i - 1, j - 1))
             return acc(min(cands), d(i, j))
-        opt = best(n2 - 1, n1 - 1)
+        if n1 * n2 > 2000:
+            # long tracks: the same recurrence filled row by row (no recursion)
+            prev = None
+            for i in range(n2):
+                row = []
+                for j in range(n1):
+                    if i == 0 and j == 0:
+                        row.append(acc(0, d(0, 0))); continue
+                    cands = []
+                    if i > 0:
+                        cands.append(prev[j])
+                    if j > 0:
+                        cands.append(row[j - 1])
+                    if i > 0 and j > 0:
+                        cands.append(prev[j - 1])
+                    row.append(acc(min(cands), d(i, j)))
+                prev = row
+            opt = prev[n1 - 1]
+        else:
+            opt = best(n2 - 1, n1 - 1)
         close = lambda a, b: abs(a - b) <= tol * (1 + abs(b))
         if not close(obs['score'], opt):
             return 'score %r but the minimum accumulated cost over all couplings is %r (p=%r)' % (obs['score'], opt, p)
